@@ -234,14 +234,20 @@ pub fn dispatch(op: &str, a: &[Arg]) -> Option<String> {
                     Ok(ar) => ar,
                     Err(e) => return format!("[OpenErr {}]", err_obs(&e)),
                 };
+                // mode 1 also compares what the archive itself reports (entry count, comment, offset, names)
+                let arch = if always || mode != 0 {
+                    format!("[{} {} {} {}] ", on(ar.len() as u64), ob(ar.comment()), on(ar.offset()), ol(&ar.file_names().map(|n| ob(n.as_bytes())).collect::<std::collections::BTreeSet<_>>().into_iter().collect::<Vec<_>>()))
+                } else {
+                    String::new()
+                };
                 let r = if a[2].n() == 0 { ar.by_index(i).map(Ok) } else { ar.by_index_decrypt(i, a[3].b()) };
                 match r {
-                    Err(e) => format!("[Err {}]", err_obs(&e)),
-                    Ok(Err(_)) => "InvalidPassword".to_string(),
+                    Err(e) => format!("[{}Err {}]", arch, err_obs(&e)),
+                    Ok(Err(_)) => format!("{}InvalidPassword", arch),
                     Ok(Ok(mut f)) => {
                         enabled.set(true);
                         let m = meta_obs(&f);
-                        format!("[Ok {} {}]", m, read_sched(&mut f, a[5].b()))
+                        format!("[{}Ok {} {}]", arch, m, read_sched(&mut f, a[5].b()))
                     }
                 }
             };
